@@ -99,18 +99,25 @@ def isolate(drv, cfg_ops, lang, text, sig):
 
 
 FAMILY_WORDS = ['qa', 'qb', 'qc', 'qd', 'qe']
+STOCK_EXTRA_WORDS = ['nm', 'megam', 'mm', 'km']          # items an application adds to the built-in length table (below its first index / above its last), and two of its own
 
 
 def user_family_ops(rng):
     """add_dynamic_type + items at a random subset of the indices 1..6 (gaps allowed), with up/down formulas that divide, multiply
     or keep the value; plus two custom rules"""
     ops = [{'op': 'add_type', 'name': 'qfam'}]
-    idx = sorted(rng.sample(range(1, 7), rng.randint(2, 5)))
+    idx = sorted(rng.sample(range(0 if rng.random() < 0.3 else 1, 7), rng.randint(2, 5)))          # index 0 is a legitimate usize, too
+    if rng.random() < 0.3:
+        # items added to a built-in table: one below its first index, one above its last; a unit registered with no name
+        ops.append({'op': 'add_type_item', 'name': 'metric-length', 'index': 0, 'format': '{value} Nanometer', 'parse': ['{NUMBER:value} {TEXT:type:nm}'],
+                    'up': '{value} / 1000000', 'down': '{value}', 'names': rng.choice([['nm'], ['nm', 'nanometer'], []])})
+        ops.append({'op': 'add_type_item', 'name': 'metric-length', 'index': 9, 'format': '{value} Megameter', 'parse': ['{NUMBER:value} {TEXT:type:megam}'],
+                    'up': '{value}', 'down': '{value} * 1000', 'names': rng.choice([['megam'], []])})
     for word, i in zip(FAMILY_WORDS, idx):
         f = rng.choice(['{value} / 2', '{value} * 2', '{value}', '{value} / 10', '{value} * 1000', '{value} / 0', '{value} - 1'])
         g = rng.choice(['{value} * 2', '{value} / 2', '{value}', '{value} * 10', '{value} / 1000', '0', '{value} + 1'])
         ops.append({'op': 'add_type_item', 'name': 'qfam', 'index': i, 'format': '{value} %s' % word.upper(), 'parse': ['{NUMBER:value} {TEXT:type:%s}' % word],
-                    'up': f, 'down': g, 'names': [word]})
+                    'up': f, 'down': g, 'names': [word] if rng.random() < 0.9 else []})
     ops.append({'op': 'add_rule', 'lang': 'en', 'patterns': ['zork {NUMBER:a} {NUMBER:b}', '{NUMBER:a} zork'], 'spec': {'name': 'r1', 'kind': 'encode', 'weights': {'a': 1}}})
     ops.append({'op': 'add_rule', 'lang': rng.choice(['en', 'tr', 'xx']), 'patterns': ['blip {TEXT:t}'], 'spec': {'name': 'r2', 'kind': rng.choice(['decline', 'const']), 'value': 7}})
     # pattern strings an application may hand over by mistake: empty, blank, comment-only, broken fields, no amount field ...
@@ -118,7 +125,11 @@ def user_family_ops(rng):
         bad = lambda: rng.choice(HOSTILE_PATTERNS)
         k = rng.randrange(4)
         if k == 0:
-            ops.append({'op': 'add_rule', 'lang': rng.choice(['en', 'tr']), 'patterns': [bad(), 'zonk {NUMBER:a}'], 'spec': {'name': 'r3', 'kind': 'const', 'value': 3}})
+            p_ = bad()
+            # (a rule that answers a number for the pattern '{NUMBER:value}' matches its own answer for ever: an endless rewrite the
+            # application asked for, not a defect - that pattern gets a declining rule)
+            ops.append({'op': 'add_rule', 'lang': rng.choice(['en', 'tr']), 'patterns': [p_, 'zonk {NUMBER:a}'],
+                        'spec': {'name': 'r3', 'kind': 'decline' if p_ == '{NUMBER:value}' else 'const', 'value': 3}})
         elif k == 1:
             ops.append({'op': 'set_date_rule', 'lang': 'en', 'patterns': ['{NUMBER:day}/{NUMBER:month}/{NUMBER:year}', bad(), '{NUMBER:day} {MONTH:month} {NUMBER:year}']})
         elif k == 2:
@@ -133,7 +144,7 @@ HOSTILE_PATTERNS = ['', '   ', '# comment', '{', '}', '{NUMBER}', '{NUMBER:}', '
 
 
 def family_text(rng):
-    w = lambda: rng.choice(FAMILY_WORDS)
+    w = lambda: rng.choice(FAMILY_WORDS if rng.random() < 0.75 else STOCK_EXTRA_WORDS)
     n = lambda: rng.choice(['0', '1', '8', '2,5', '1000', '-3', '1e3', '99999999999'])
     lines = []
     for _ in range(rng.randint(1, 4)):
